@@ -32,7 +32,7 @@ def main():
     pid = args[0]
     only = args[1:] or None
     src = f"/tmp/seed/{pid}/out"
-    for k in range(1, 16):
+    for k in range(1, 20):
         name = f"m{k}"
         if only and name not in only:
             continue
